@@ -26,6 +26,7 @@ from vsc.model.field_model import FieldModel
 from vsc.model.field_scalar_model import FieldScalarModel
 from vsc.model.model_visitor import ModelVisitor
 from vsc.model.variable_bound_bounds_max_propagator import VariableBoundBoundsMaxPropagator
+from vsc.model.variable_bound_ctx_expr import VariableBoundCtxExpr
 from vsc.model.variable_bound_bounds_min_propagator import VariableBoundBoundsMinPropagator
 from vsc.model.variable_bound_enum_model import VariableBoundEnumModel
 from vsc.model.variable_bound_eq_propagator import VariableBoundEqPropagator
@@ -176,28 +177,40 @@ class VariableBoundVisitor(ModelVisitor):
                 rhs_bounds = None
                 
             propagator = None
+
+            # The solver compares with the width of the wider operand, 
+            # signed only if both operands are signed. The propagators work
+            # on integers, which is the same thing only if the variable 
+            # keeps its value in the comparison: a signed variable compared
+            # with an unsigned operand does not
+            ctx_width = max(e.lhs.width(), e.rhs.width())
+            ctx_signed = e.lhs.is_signed() and e.rhs.is_signed()
                 
             if lhs_bounds is not None and rhs_bounds is not None:
                 # Two-sided relationship involving fields
-                propagator = self.lhsvar_rhsvar_propagator(
-                    lhs_bounds, 
-                    e.op, 
-                    rhs_bounds)
-                pass
+                if e.lhs.is_signed() == e.rhs.is_signed():
+                    propagator = self.lhsvar_rhsvar_propagator(
+                        lhs_bounds, 
+                        e.op, 
+                        rhs_bounds)
             elif lhs_bounds is not None:
                 # left-hand field and no right-hand field
-                if rhs_is_nonrand:
+                if rhs_is_nonrand and (ctx_signed or not e.lhs.is_signed()):
                     propagator = self.lhsvar_rhsnre_propagator(
                         lhs_bounds, 
                         e.op, 
-                        e.rhs)
-            elif rhs_fm is not None:
+                        e.rhs,
+                        ctx_width,
+                        ctx_signed)
+            elif rhs_fm is not None and rhs_bounds is not None:
                 # right-hand field and no left-hand field
-                if lhs_is_nonrand:
+                if lhs_is_nonrand and (ctx_signed or not e.rhs.is_signed()):
                     propagator = self.lhsnre_rhsvar_propagator(
                         e.lhs, 
                         e.op, 
-                        rhs_bounds)
+                        rhs_bounds,
+                        ctx_width,
+                        ctx_signed)
 
             if propagator is not None:
                 self.propagators.append(propagator)
@@ -236,40 +249,36 @@ class VariableBoundVisitor(ModelVisitor):
     def lhsvar_rhsnre_propagator(self,
                     lhs_bounds,
                     op,
-                    rhs_e):
+                    rhs_e,
+                    ctx_width,
+                    ctx_signed):
         propagator = None
         if op == BinExprType.Lt:
             # The max bound is 
             propagator = VariableBoundExprMaxPropagator(
                 lhs_bounds,
-                ExprBinModel(
-                    rhs_e,
-                    BinExprType.Sub,
-                    ExprLiteralModel(1, False, 4)))
+                VariableBoundCtxExpr(rhs_e, ctx_width, ctx_signed, -1))
         elif op == BinExprType.Le:
             # The max bound is 
             propagator = VariableBoundExprMaxPropagator(
                 lhs_bounds,
-                rhs_e)
+                VariableBoundCtxExpr(rhs_e, ctx_width, ctx_signed))
         elif op == BinExprType.Gt:
             # The minimum bound is 1+RHS
             propagator = VariableBoundExprMinPropagator(
                 lhs_bounds,
-                ExprBinModel(
-                    rhs_e,
-                    BinExprType.Add,
-                        ExprLiteralModel(1, False, 4)))
+                VariableBoundCtxExpr(rhs_e, ctx_width, ctx_signed, 1))
         elif op == BinExprType.Ge:
             # The minimum bound is 1+ RHS
             propagator = VariableBoundExprMinPropagator(
                 lhs_bounds,
-                rhs_e)
+                VariableBoundCtxExpr(rhs_e, ctx_width, ctx_signed))
         elif op == BinExprType.Eq:
             # Know that the right-hand side is a non-rand quantity
             # This pins the left-hand variable to a single value
             propagator = VariableBoundEqPropagator(
                 lhs_bounds,
-                rhs_e,
+                VariableBoundCtxExpr(rhs_e, ctx_width, ctx_signed),
                 True)
 
         if propagator is not None:
@@ -280,39 +289,35 @@ class VariableBoundVisitor(ModelVisitor):
     def lhsnre_rhsvar_propagator(self,
                     lhs_e,
                     op,
-                    rhs_bounds):
+                    rhs_bounds,
+                    ctx_width,
+                    ctx_signed):
         propagator = None
         if op == BinExprType.Lt:
             # <expr> < <var>  <-> <var> >= <expr>+1
             # Sets the minimum bound for the variable
             propagator = VariableBoundExprMinPropagator(
                 rhs_bounds,
-                ExprBinModel(
-                    lhs_e,
-                    BinExprType.Add,
-                    ExprLiteralModel(1, False, 4)))
+                VariableBoundCtxExpr(lhs_e, ctx_width, ctx_signed, 1))
         elif op == BinExprType.Le:
             # <expr> <= <var> <-> <var> >= <expr>
             propagator = VariableBoundExprMinPropagator(
                 rhs_bounds,
-                lhs_e)
+                VariableBoundCtxExpr(lhs_e, ctx_width, ctx_signed))
         elif op == BinExprType.Gt:
             # <expr> > <var> <-> <var> <= <expr>-1
             propagator = VariableBoundExprMaxPropagator(
                 rhs_bounds,
-                ExprBinModel(
-                    lhs_e,
-                    BinExprType.Sub,
-                        ExprLiteralModel(1, False, 4)))
+                VariableBoundCtxExpr(lhs_e, ctx_width, ctx_signed, -1))
         elif op == BinExprType.Ge:
             # <expr> >= <var> <-> <var> <= <expr>
             propagator = VariableBoundExprMaxPropagator(
                 rhs_bounds,
-                lhs_e)
+                VariableBoundCtxExpr(lhs_e, ctx_width, ctx_signed))
         elif op == BinExprType.Eq:
             propagator = VariableBoundEqPropagator(
                 rhs_bounds,
-                lhs_e,
+                VariableBoundCtxExpr(lhs_e, ctx_width, ctx_signed),
                 True)
 
         if propagator is not None:
@@ -355,7 +360,7 @@ class VariableBoundVisitor(ModelVisitor):
                             break
 
                     if is_nre:
-                        propagator = VariableBoundInPropagator(lhs_bounds, e.rhs)
+                        propagator = VariableBoundInPropagator(lhs_bounds, e.rhs, e.lhs)
                         lhs_bounds.add_propagator(propagator)
                         propagator.propagate()
                     
